@@ -248,12 +248,12 @@ pub fn run08(em: &mut Emitter, rng: &mut Rng, thorough: bool) {
         }
     }
     // typed leaves inside each kind of parent
-    for _ in 0..(if thorough { 16_000 } else { 600 }) {
+    for _ in 0..(if thorough { 40_000 } else { 4_000 }) {
         let mode = rng.below(3) as u8;
         let ctx = *rng.pick(&ctxs);
         if !ctx_ok(mode, ctx) { continue }
         let ty = rng.below(18) as u8;
-        let n = rng.range(0, 4) as usize; let mut c = rng.bytes(n); if n > 0 && rng.bool() { c[0] = *rng.pick(&[0u8, 1, 0xff, 0x7f, 0x80, 0x2a]); }
+        let n = rng.range(0, 4) as usize; let mut c = rng.bytes(n); if n > 0 && rng.bool() { c[0] = *rng.pick(&[0u8, 1, 0xff, 0x7f, 0x80, 0x2a]); } if n > 1 && c[0] == 0 && rng.bool() { c[1] |= 0x80; }
         let tag = match ty { 10 => 1u8, 11 => 5, 12 | 13 => 6, 14 | 15 => 3, _ => 2 };
         let mut inner = vec![tag, n as u8]; inner.extend(&c);
         let data = wrap(ctx, &inner);
